@@ -280,9 +280,10 @@ func Load(ctx context.Context, wd string, env []string, tags string, patterns []
 				continue
 			}
 			pset := item.(*ProviderSet)
-			// pset.Name may not equal name, since it could be an alias to
-			// another provider set.
-			id := ProviderSetID{ImportPath: pset.PkgPath, VarName: name}
+			// pset.VarName may not equal name, and pset.PkgPath may not be
+			// this package, since the variable could be an alias to another
+			// provider set: identify it by where it is declared.
+			id := ProviderSetID{ImportPath: pkg.PkgPath, VarName: name}
 			info.Sets[id] = pset
 		}
 		for _, f := range pkg.Syntax {
